@@ -249,6 +249,43 @@ def h_roundtrip(eng, base, name, bo, ps, cap, nested):
         x.assembly_string(bo, ps)
 
 
+def h_long_expr(eng, inst, body, last, bo, ps):
+    """Expression operands whose body is around the 127/128-byte boundary of the ULEB128 length prefix."""
+    registry_check()
+    EXPR, CFI = _mods()
+    if last == "plus":
+        tail = [EXPR.OpPlus()]
+        v = None
+    else:
+        v = eng.int("v", 0, 255)
+        tail = [EXPR.OpConst1U(v)]
+    ntail = 1 if last == "plus" else 2
+    ops = [EXPR.OpDup() for _ in range(body - ntail)] + tail
+    if inst == "def_cfa_expression":
+        x = CFI.InstDefCFAExpression(ops)
+        head = [0x0F]
+    else:
+        r = eng.int("r", 0, 127)
+        x = CFI.InstExpression(r, ops) if inst == "expression" else CFI.InstValExpression(r, ops)
+        head = [0x10 if inst == "expression" else 0x16, r]
+    enc = x.encode(bo, ps)
+    pref = [body] if body < 128 else [(body & 0x7F) | 0x80, body >> 7]
+    want = head + pref + [0x12] * (body - ntail) + ([0x22] if last == "plus" else [0x08, v])
+    eng.check(len(enc) == len(want) and And(*[p == q for p, q in zip(enc, want)]), "encoding of a %d-byte expression differs from the standard" % body)
+    d, n = CFI.Instruction.decode(reader(enc), bo, ps)
+    eng.check(n == len(enc), "decode consumed %r of %d bytes of an instruction with a %d-byte expression" % (n, len(enc), body))
+    eng.check(type(d) is type(x) and len(d.expression) == len(ops) and type(d.expression[-1]) is type(ops[-1]),
+              "decode(encode(x)) lost or changed operations of a %d-byte expression" % body)
+    if v is not None:
+        eng.check(d.expression[-1].value == v, "last operand of the decoded expression")
+    nop = CFI.InstNop().encode(bo, ps)
+    blob = enc + (nop if eng.sym else bytes(nop)) if eng.sym else bytes(enc) + bytes(nop)
+    got = list(CFI.parse_cfi_instructions(blob, bo, ps))
+    eng.check(len(got) == 2 and type(got[0]) is type(x) and type(got[1]).__name__ == "InstNop"
+              and len(got[0].expression) == len(ops), "parse_cfi_instructions over [long expression instruction, nop]: %r" % (
+                  [type(g).__name__ for g in got],))
+
+
 # ---------------------------------------------------------------------------
 # family B: decode of arbitrary buffers
 # ---------------------------------------------------------------------------
@@ -487,6 +524,11 @@ def make_check(tier):
                         params=dict(base=base, first_values=list(range(lo, lo + 16)), bo=bo, ps=ps, tail=tail),
                         timeout=1500)
     insts = sorted(R.DW_CFA)
+    for inst in ("def_cfa_expression", "expression", "val_expression"):
+        for body in ((127, 128, 129) if tier == "quick" else (126, 127, 128, 129, 130, 255, 256)):
+            for last in ("plus", "const1u"):
+                chk.add("longexpr/%s/%d/%s" % (inst, body, last), h_long_expr,
+                        params=dict(inst=inst, body=body, last=last, bo="little", ps=8), timeout=600)
     small_nested = {"lengths": [1], "classes": ["OpBReg", "OpLit"], "classes2": ["OpDup"]}
     rep2 = ["InstNop", "InstDefCFA", "InstOffset", "InstRestore", "InstDefCFAOffsetSF", "InstExpression",
             "InstRememberState", "InstValOffsetSF"]
@@ -506,6 +548,7 @@ def make_check(tier):
             chk.add("make_const/%s/%s%d" % ("OpConst" if via else "make_const_op", bo, ps), h_make_const,
                     params=dict(via_ctor=via, bo=bo, ps=ps))
     chk.bounds = {
+        "long expressions": "expression bodies of 127-129 bytes (thorough: 126-130, 255, 256) around the length prefix boundary, last operation one or two bytes",
         "operand magnitude": "|v| <= 2^%d for classes with one LEB128 operand, 2^%d each for two, 2^10 inside nested expressions "
                              "(LEB128 loops unroll by path forking; larger operands outside the claim)" % (cap, min(cap, 28)),
         "nested expression length": nested["lengths"],
